@@ -363,13 +363,13 @@ func c04Verifier(c *Ctx, V *ssa.Function, sCall *ssa.Call, S, P *ssa.Function) {
 	okExits := len(s.Exits) > 0
 	nSubset := 0
 	for _, ex := range s.Exits {
-		_, isWild := hasLabel(ex.Checked, "T(call:ngo/internal/slices.Contains(param:"+idents.Name()+fmt.Sprintf(",const:%q))", wc))
+		_, isWild := hasLabel(ex.Checked, "T(call:slices.Contains(param:"+idents.Name()+fmt.Sprintf(",const:%q))", wc))
 		_, isSub := hasLabel(ex.Checked, "T(call:"+fnName(S)+"(")
 		if isWild && !isSub {
 			// the lone wildcard accepts every subject: nothing else may gate this exit
 			var extra []string
 			for l := range ex.Checked {
-				rest := strings.Replace(l, "call:ngo/internal/slices.Contains(", "", 1)
+				rest := strings.Replace(l, "call:slices.Contains(", "", 1)
 				if strings.Contains(rest, "call:") || strings.Contains(rest, "param:"+certs.Name()) {
 					extra = append(extra, l)
 				}
